@@ -52,7 +52,7 @@ def gen(rng, big=False):
             ops.append(f"c:{h}:{p}:{rng.choice(serials)}")
         else:
             ops.append(f"e:{h}:{p}")
-    return {"op": "fwd", "ops": ops}
+    return {"op": "fwd", "ops": ops, "wire": rng.random() < 0.5}
 
 
 def pairs():
@@ -65,7 +65,9 @@ def pairs():
             for mid in [f"e:{A[0]}:{A[1]}", f"c:{A[0]}:{A[1]}:7", f"c:{A[0]}:{A[1]}:8", f"o:{A[0]}:{A[1]}:5:7:r",
                         f"s:{A[0]}:{A[1]}:5:d"]:
                 for k in "dg":
-                    out.append({"op": "fwd", "ops": [f"o:1:1001:5:7:{t}", f"s:1:1001:5:{k}", mid, f"s:1:1001:5:{k}"]})
+                    for wire in (False, True):
+                        out.append({"op": "fwd", "wire": wire,
+                                    "ops": [f"o:1:1001:5:7:{t}", f"s:1:1001:5:{k}", mid, f"s:1:1001:5:{k}"]})
     return out
 
 
@@ -134,11 +136,101 @@ class Sim:
         return ",".join(rows) or "-"
 
 
-def run_ops(ops):
+class WireSim(Sim):
+    """the same operations as EtherNet/IP frames through `logix.process( addr, data=<parsed frame> )`, doing around it
+    what `enip_srv_tcp` does: a request that raises ends the session (an empty request is handed to the processor)"""
+
+    def __init__(self):
+        super().__init__()
+        from cpppo.server.enip import logix, parser
+        self.logix, self.parser = logix, parser
+        self.seq = {}
+
+    @staticmethod
+    def frame(cmd, payload, sess=0):
+        import struct
+        return struct.pack("<HHII", cmd, len(payload), sess, 0) + b"fwdtable" + struct.pack("<I", 0) + payload
+
+    @staticmethod
+    def cpf(items):
+        import struct
+        out = struct.pack("<IH", 0, 5) + struct.pack("<H", len(items))
+        for t, b in items:
+            out += struct.pack("<HH", t, len(b)) + b
+        return out
+
+    def process(self, addr, fb):
+        cpppo, parser = self.cpppo, self.parser
+        data = cpppo.dotdict()
+        with parser.enip_machine(context="enip") as machine:
+            for _m, _s in machine.run(path="request", source=cpppo.peekable(fb), data=data):
+                pass
+        try:
+            proceed = self.logix.process(addr, data=data)
+            ok = bool(proceed) and not data.response.enip.status and data.response.enip.get("input")
+        except Exception:
+            ok = False
+        if not ok:
+            self.logix.process(addr, data=cpppo.dotdict())       # the connection is dropped: session end
+            return None
+        return data.response
+
+    def do(self, op):
+        import struct
+        f = op.split(":")
+        addr = (host(int(f[1])), int(f[2]))
+        if f[0] == "o":
+            cid, serial, t = int(f[3]), int(f[4]), f[5]
+            cp = bytes([0x20, 0xA6, 0x24, 0x01]) if t == "p" else bytes([0x20, 0x02, 0x24, 0x01])
+            ncp_ot = (0 << 13) | (1 << 9) | 500                      # type 0 (Null), variable, size 500
+            ncp_to = (2 << 13) | (1 << 9) | 500                      # type 2 (P2P)
+            cm = (b"\x54\x02\x20\x06\x24\x01" + bytes([5, 157]) + struct.pack("<IIHHI", cid, 1, serial, 0x99, 0x1234)
+                  + bytes([0, 0, 0, 0]) + struct.pack("<IHIH", 100000, ncp_ot, 100000, ncp_to) + bytes([0xa3, len(cp) // 2]) + cp)
+            rsp = self.process(addr, self.frame(0x6f, self.cpf([(0, b""), (0xb2, cm)])))
+            if rsp is None:
+                return "failed"
+            rep = bytes(rsp.enip.CIP.send_data.CPF.item[1].unconnected_send.request.input)
+            if rep[:1] != b"\xd4":
+                return f"other:{rep[:4].hex()}"
+            if rep[2] == 0:
+                got = struct.unpack("<I", rep[4:8])[0]
+                return "opened" if got == cid else f"opened-with-other-id:{got}"
+            return "refused" if rep[2] == 8 else f"status:{rep[2]}"
+        if f[0] == "c":
+            cp = bytes([0x20, 0x02, 0x24, 0x01])
+            cm = (b"\x4e\x02\x20\x06\x24\x01" + bytes([5, 157]) + struct.pack("<HHI", int(f[3]), 0x99, 0x1234)
+                  + bytes([len(cp) // 2, 0]) + cp)
+            rsp = self.process(addr, self.frame(0x6f, self.cpf([(0, b""), (0xb2, cm)])))
+            if rsp is None:
+                return "failed"
+            rep = bytes(rsp.enip.CIP.send_data.CPF.item[1].unconnected_send.request.input)
+            return "closed" if rep[:1] == b"\xce" and rep[2] == 0 else f"other:{rep[:4].hex()}"
+        if f[0] == "e":
+            self.logix.process(addr, data=self.cpppo.dotdict())
+            return "ended"
+        if f[0] == "s":
+            cid = int(f[3])
+            payload = DF1_STATUS if f[4] == "d" else CIP_GAA
+            sq = self.seq[(addr, cid)] = (self.seq.get((addr, cid), 0) + 1) % 65536
+            rsp = self.process(addr, self.frame(0x70, self.cpf([(0xa1, struct.pack("<I", cid)),
+                                                                (0xb1, struct.pack("<H", sq) + payload)])))
+            if rsp is None:
+                return "failed"
+            items = rsp.enip.CIP.send_data.CPF.item
+            if items[0].connection_ID.connection != cid:
+                return f"reply-on-other-connection:{items[0].connection_ID.connection}"
+            rep = bytes(items[1].connection_data.request.input)
+            if f[4] == "d":
+                return "df1" if rep[:1] != b"\x81" and len(rep) > 12 else f"other:{rep[:4].hex()}"
+            return "cip" if rep[:4] == b"\x81\x00\x00\x00" else f"other:{rep[:4].hex()}"
+        raise ValueError(op)
+
+
+def run_ops(ops, wire=False):
     lvl = logging.root.manager.disable
     logging.disable(logging.CRITICAL)
     try:
-        sim = Sim()
+        sim = WireSim() if wire else Sim()
         outs = [sim.do(op) for op in ops]
         return outs, sim.table()
     finally:
@@ -146,11 +238,11 @@ def run_ops(ops):
 
 
 def model_line(c):
-    return "fwd " + (";".join(c["ops"]) or "-")
+    return ("fwdwire " if c.get("wire") else "fwd ") + (";".join(c["ops"]) or "-")
 
 
 def run_case(c):
-    outs, tab = run_ops(c["ops"])
+    outs, tab = run_ops(c["ops"], bool(c.get("wire")))
     c["obs_fwd"] = outs
     return ";".join(outs) + "|" + tab
 
@@ -173,7 +265,7 @@ def oracle(c, out):
     for pr in peers:
         mine = [op for op in c["ops"] if peer_of(op) == pr]
         got = [o for op, o in zip(c["ops"], outs) if peer_of(op) == pr]
-        alone, _ = run_ops(mine)
+        alone, _ = run_ops(mine, bool(c.get("wire")))
         if alone != got:
             k = next(i for i, (a, b) in enumerate(zip(alone, got)) if a != b)
             return (f"Connected session {host(int(pr[0]))}:{pr[1]}: its operation #{k} ({mine[k]}) is answered '{got[k]}' when "
@@ -199,7 +291,7 @@ def classify(c, out):
     hosts = {p[0] for p in peers}
     ports = {p[1] for p in peers}
     outs = out.split("|")[0].split(";")
-    return (f"connected-sessions peers={len(peers)} shared-host={'y' if len(hosts) < len(peers) else 'n'} "
+    return (f"connected-sessions level={'frames' if c.get('wire') else 'CM.request'} peers={len(peers)} shared-host={'y' if len(hosts) < len(peers) else 'n'} "
             f"shared-port={'y' if len(ports) < len(peers) else 'n'} ops={'<=4' if len(c['ops']) <= 4 else ('<=14' if len(c['ops']) <= 14 else '>14')} "
             f"refused={'y' if 'refused' in outs else 'n'} failed={'y' if 'failed' in outs else 'n'}")
 
